@@ -58,6 +58,8 @@ MUTS = {
  "userdir-exclude-ignored": ("src/mod_userdir.c", "    if (p->conf.exclude_user) {", "    if (0 && p->conf.exclude_user) {", ["C02"]),
  "xff-mask-trusts-all": ("src/mod_extforward.c", "        if (0 == iplen || iplen >= sizeof(addrstr)) return 0;", "        if (0 == iplen || iplen >= sizeof(addrstr)) return 0;\n        if (iplen > 8) return 1;", ["C03"]),
  "linger-forever": ("src/h1.c", "        if (cur_ts - con->close_timeout_ts > HTTP_LINGER_TIMEOUT)\n            changed = 1;", "        if (cur_ts - con->close_timeout_ts > HTTP_LINGER_TIMEOUT)\n            changed = 0;", ["C13"]),
+ "status-304-keeps-body": ("src/response.c", "      case 304: /* cooperate with http_response_304() */\n        http_response_body_clear(r, 1);", "      case 304: /* cooperate with http_response_304() */\n        if (0) http_response_body_clear(r, 1);", ["C04", "C10"]),
+ "backend-timeout-off": ("src/h1.c", "        if (cur_ts - con->write_request_ts > r->conf.max_write_idle) {", "        if (cur_ts - con->write_request_ts > 100000 + r->conf.max_write_idle) {", ["C13"]),
  "else-link": ("src/configparser.y", "    C->prev = B;\n    B->next = C;\n    A = C;", "    C->prev = B;\n    A = C;", ["C14"]),
 }
 
